@@ -130,9 +130,9 @@ func runC53(c *Ctx) {
 	p := c.P
 	const r1 = "alloc-size-guarded"
 	reviewed := map[string]string{
-		"plumbing/format/idxfile.readObjectNames->make": "bucket counts come from the fanout, whose total was validated against the file size by validateIdxV2Size before the body flow runs (C10 idx-validated-before-use)",
-		"plumbing/format/commitgraph.(*fileIndex).Hashes->make": "fanout[255] was checked against the chunk sizes (and hence the file size) by verifyChunkSizes when the file was opened; each entry is also capped at 0x7fffffff",
-		"plumbing/format/idxfile.readOffsets->make":     "the 64-bit table length is derived from entries already read; bounded by the validated file size",
+		"plumbing/format/idxfile.readObjectNames->make(nameLen)":     "bucket counts come from the fanout, whose total was validated against the file size by validateIdxV2Size before the body flow runs (C10 idx-validated-before-use)",
+		"plumbing/format/idxfile.readObjectNames->make(buckets * 4)": "same bucket counts, validated by validateIdxV2Size",
+		"plumbing/format/commitgraph.(*fileIndex).Hashes->make(fi.fanout[0xff] + fi.minimumNumberOfHashes)": "fanout[255] was checked against the chunk sizes (and hence the file size) by verifyChunkSizes when the file was opened; each entry is also capped at 0x7fffffff",
 	}
 	nSites := 0
 	for _, sp := range decoderPkgs {
@@ -270,7 +270,8 @@ func runC53(c *Ctx) {
 							continue
 						}
 					}
-					if why, ok := reviewed[strings.SplitN(key, "#", 2)[0]]; ok {
+					// reviewed entries are per size expression, so a new allocation in a reviewed function is not covered
+					if why, ok := reviewed[strings.SplitN(key, "#", 2)[0]+"("+exprString(sa)+")"]; ok {
 						c.Hold(r1, key, call.Pos(), "reviewed: "+why)
 						continue
 					}
